@@ -13,6 +13,8 @@ import (
 	"runtime"
 	"runtime/debug"
 	"runtime/metrics"
+	"strconv"
+	"strings"
 	"sync/atomic"
 	"syscall"
 	"time"
@@ -21,14 +23,38 @@ import (
 	"verif/harness/dec"
 )
 
+// threadCPU is the user-mode CPU time of the calling OS thread. Kernel time is left out on
+// purpose: in this sandbox the first touch of a fresh page costs up to 250 us of system time
+// when the machine is loaded (a 340 MiB append loop took 15 s instead of 30 ms), which says
+// nothing about the decoder (DESIGN.md, Corrections).
 func threadCPU() time.Duration {
 	var ru syscall.Rusage
 	// RUSAGE_THREAD = 1 on Linux
 	if err := syscall.Getrusage(1, &ru); err != nil {
 		return 0
 	}
-	return time.Duration(ru.Utime.Nano() + ru.Stime.Nano())
+	return time.Duration(ru.Utime.Nano())
 }
+
+// taskUser reads the user-mode CPU time of another thread of this process (clock ticks of
+// 10 ms) from /proc; used by the hang reporter, which runs on a different thread.
+func taskUser(tid int) time.Duration {
+	b, err := os.ReadFile(fmt.Sprintf("/proc/self/task/%d/stat", tid))
+	if err != nil {
+		return -1
+	}
+	str := string(b)
+	f := strings.Fields(str[strings.LastIndex(str, ")")+1:])
+	if len(f) < 12 {
+		return -1
+	}
+	ut, _ := strconv.ParseInt(f[11], 10, 64)
+	return time.Duration(ut) * 10 * time.Millisecond
+}
+
+// HangSeconds is the wall time after which the worker reports a decode as not returned,
+// together with the user CPU time the decode thread has spent on it, and exits.
+const HangSeconds = 20
 
 func liveHeap() uint64 {
 	s := []metrics.Sample{{Name: "/memory/classes/heap/objects:bytes"}}
@@ -50,6 +76,7 @@ func main() {
 	// turned 2 s decodes into apparent 25 s ones (DESIGN.md, Corrections).
 	debug.SetGCPercent(100)
 	runtime.LockOSThread()
+	tid := syscall.Gettid()
 	in := bufio.NewReaderSize(os.Stdin, 1<<16)
 	out := bufio.NewWriter(os.Stdout)
 	for {
@@ -68,6 +95,7 @@ func main() {
 		var peak atomic.Uint64
 		stop := make(chan struct{})
 		done := make(chan struct{})
+		u0, t0 := taskUser(tid), time.Now()
 		go func() {
 			defer close(done)
 			tk := time.NewTicker(2 * time.Millisecond)
@@ -77,13 +105,29 @@ func main() {
 				case <-stop:
 					return
 				case <-tk.C:
+					if time.Since(t0) > HangSeconds*time.Second {
+						// the main goroutine is still inside the decode: report and leave
+						hr := dec.Response{Hung: true, WallMs: int64(time.Since(t0) / time.Millisecond), PeakHeap: peak.Load()}
+						if u := taskUser(tid); u >= 0 && u0 >= 0 {
+							hr.CPUms = int64((u - u0) / time.Millisecond)
+						} else {
+							hr.CPUms = -1
+						}
+						b, _ := json.Marshal(&hr)
+						var l [4]byte
+						binary.LittleEndian.PutUint32(l[:], uint32(len(b)))
+						out.Write(l[:])
+						out.Write(b)
+						out.Flush()
+						os.Exit(0)
+					}
 					if h := liveHeap(); h > base && h-base > peak.Load() {
 						peak.Store(h - base)
 					}
 				}
 			}
 		}()
-		c0, t0 := threadCPU(), time.Now()
+		c0 := threadCPU()
 		func() {
 			defer func() {
 				if r := recover(); r != nil {
